@@ -709,7 +709,7 @@ func genCases(r *vf.Run) []ccase {
 	out = append(out, g.attrSweep(r.N(2, 16))...)
 	out = append(out, g.mpEmpty()...)
 	out = append(out, g.oddValid(r.N(100, 3000))...)
-	out = append(out, g.splices(r.N(1500, 150000))...)
+	out = append(out, g.splices(r.N(1500, 90000))...)
 	out = append(out, g.valid(r.N(100, 1000))...)
 	// spread the generators over the batches (a process-fatal stream costs its batch a restart)
 	r.Rand("c21-order").Shuffle(len(out), func(i, j int) { out[i], out[j] = out[j], out[i] })
